@@ -309,6 +309,78 @@ def concurrent_calls(k, seed):
     return [(seed * 100 + t, res.get(t)) for t in range(k)]
 
 
+def cold_start_stress(trials, seed):
+    """First uses of an instance raced against each other: k threads, released together by a barrier with the interpreter's
+    switch interval at its minimum (the threads are preempted every few bytecodes), make the FIRST call of a fresh DAG — or
+    the first call after RUN_DEBUG_NODES was toggled / the DAG reconfigured / through fresh executor objects — with distinct
+    arguments.  Whatever a call prepares lazily on the instance, every thread must get its own result.
+    Returns (runs, problems)."""
+    import sys
+    rng = random.Random("cold/%d" % seed)
+    old = sys.getswitchinterval()
+    old_dbg = twz_cfg.RUN_DEBUG_NODES
+    problems, runs = [], 0
+
+    def first(a):
+        return ("first", a)
+
+    def second(b, a):
+        return ("second", b, a)
+
+    def probe(b):
+        return ("probe", b)
+    for f_ in (first, second, probe):
+        f_.__qualname__ = f_.__name__
+    xf, xs, xp = xn(first), xn(second, priority=2), xn(probe, debug=True)
+
+    def describe(a):
+        f = xf(a)
+        xp(f)
+        return xs(f, a)
+    describe.__qualname__ = describe.__name__ = "cold"
+    sys.setswitchinterval(1e-6)
+    try:
+        for trial in range(trials):
+            variant = rng.choice(["fresh", "fresh", "debug-toggled", "reconfigured", "executors", "mixed"])
+            twz_cfg.RUN_DEBUG_NODES = False
+            d = threadsafe_make_dag(describe, rng.choice([1, 2]), False)
+            k = rng.randint(2, 4)
+            if variant == "debug-toggled":
+                d(0)
+                twz_cfg.RUN_DEBUG_NODES = True
+            elif variant == "reconfigured":
+                d(0)
+                d.config_from_dict({"nodes": {"first": {"priority": 3}}})
+            bar = threading.Barrier(k, timeout=20)
+            res = {}
+
+            def worker(t, d=d, bar=bar, res=res, variant=variant):
+                try:
+                    bar.wait()
+                    if variant == "executors" or (variant == "mixed" and t % 2):
+                        res[t] = d.executor()(trial * 10 + t)
+                    else:
+                        res[t] = d(trial * 10 + t)
+                except BaseException as e:  # noqa: BLE001
+                    res[t] = ("EXC", type(e).__name__, str(e)[:100])
+            ths = [threading.Thread(target=worker, args=(t,), daemon=True) for t in range(k)]
+            for th in ths:
+                th.start()
+            for th in ths:
+                th.join(30)
+            runs += k
+            for t in range(k):
+                a = trial * 10 + t
+                if res.get(t) != ("second", ("first", a), a):
+                    problems.append(dict(variant=variant, threads=k, thread=t, arg=a, got=res.get(t)))
+            if problems:
+                break
+    finally:
+        sys.setswitchinterval(old)
+        twz_cfg.RUN_DEBUG_NODES = old_dbg
+    return runs, problems
+
+
 def overlapping_builds(k, seed):
     """k threads build DAGs at the same time: the first pauses inside its describing function until all the
     others are blocked trying to start theirs.  Returns per thread the built table or the exception."""
